@@ -174,4 +174,130 @@ def c03(tier):
                         BUILD_FUNCS, pre=pre)
 
 
-PROPS = {'C03': c03, 'C02': c02, 'C05': c05, 'C01': c01, 'C04': c04, 'C14': c14}
+LIFE_FUNCS = RECV_FUNCS + ['lomond.session.WebsocketSession._connect/_connect_sock/_close_socket/_send_request',
+                          'lomond.websocket.WebSocket.close/_on_close/on_disconnect/send_text/send_binary/send_ping']
+
+
+def life_spec(name, tags, what, **P):
+    P = dict(P)
+    P['tags'] = list(tags)
+    P.setdefault('xval_stride', 53)
+    return Spec(name, 'checks.life', 'run_life', P, what=what)
+
+
+def c08(tier):
+    q = tier == 'quick'
+    tags = ['C08']
+    acts = ['send_text', 'close', 'send_ping']
+    specs = [
+        life_spec('close-orders-K2', tags,
+                  'server: <=2 frames from {Text, Ping, Close(code,reason symbolic), empty Close} chosen by solver variables, then EOF; '
+                  'application: <=2 actions from {send_text, close(code,reason symbolic), send_ping} at solver-chosen events (incl. Connecting/Connected); '
+                  'oracle: close-handshake monitor over the ordered wire/event/call log',
+                  server=dict(kind='grammar', K=2 if q else 3, alphabet=['text', 'ping', 'close', 'close0']),
+                  app=dict(actions=acts, max_actions=2)),
+        life_spec('close-then-traffic', tags,
+                  'application closes at a solver-chosen event, server keeps sending <=3 frames (Text/Ping/fragmented Binary/Close): '
+                  'delivery continues until the server Close; one more application action',
+                  server=dict(kind='grammar', K=3, alphabet=['text', 'frag', 'close'], may_stop=True),
+                  app=dict(actions=['close', 'send_binary'], max_actions=2, only_events=['connected', 'ready', 'text', 'binary', 'closing'])),
+        life_spec('close-write-fault', tags,
+                  'as close-orders with one symbolic socket-write fault (any sendall after the upgrade request)',
+                  server=dict(kind='grammar', K=1, alphabet=['text', 'close']),
+                  app=dict(actions=['close', 'send_text'], max_actions=2),
+                  fault=dict(ops=['sendall'], kinds=['oserror'], max=1, skip={'sendall': 1})),
+    ]
+    if not q:
+        specs.append(life_spec('close-raw-N3', tags, 'raw symbolic server bytes (N=3) with application close/send at any event',
+                               server=dict(kind='raw', N=3), app=dict(actions=['close', 'send_text'], max_actions=2)))
+    return run_property('C08', tier, specs, 'model_checking', 'closing handshake', ENV_ASSUMPTIONS + [
+        'single-threaded histories only (multi-threaded close is C12)',
+        'frames the server sends after its own Close are a don\'t-care region'], LIFE_FUNCS)
+
+
+def c07(tier):
+    q = tier == 'quick'
+    tags = ['C07']
+    specs = [
+        life_spec('raw-N%d-react' % (2 if q else 3), tags,
+                  'handshake variant (valid/200/no-upgrade/wrong-accept/garbage/oversize) x raw symbolic frame bytes x transport end '
+                  '(EOF/socket error/non-socket exception) x <=2 application reactions (send_text/send_ping/close) at solver-chosen events; '
+                  'monitor automaton over event names + bounded-step termination',
+                  server=dict(kind='raw', N=2 if q else 3), handshake='sym', end='sym',
+                  app=dict(actions=['send_text', 'close', 'send_ping'], max_actions=2), max_waits=40),
+        life_spec('connect-faults', tags,
+                  'resolve/socket/connect/request-write/recv/wait faults (2 faults, socket error or arbitrary exception), 2 resolved addresses',
+                  server=dict(kind='grammar', K=1, alphabet=['text', 'close0']), n_addrs=2,
+                  fault=dict(ops=['getaddrinfo', 'socket', 'connect', 'sendall', 'recv', 'wait', 'shutdown', 'close'],
+                             kinds=['oserror', 'exception'], max=2),
+                  app=dict(actions=['close'], max_actions=1), max_waits=40),
+        life_spec('close-then-silence', tags,
+                  'application closes at a solver-chosen event (incl. before Ready), the server upgrades and then stays silent: '
+                  'close_timeout must end the iteration (virtual clock)',
+                  server=dict(kind='grammar', K=1, alphabet=['text']), end='silence', silent_waits=10 ** 6,
+                  connect=dict(poll=1.0, close_timeout=3.0),
+                  app=dict(actions=['close', 'close_default'], max_actions=1, only_events=['connecting', 'connected', 'ready', 'text']),
+                  max_waits=30),
+        life_spec('grammar-K%d-cut' % (2 if q else 3), tags,
+                  'server grammar frames, transport cut after a symbolic number of bytes of the whole stream (incl. inside the handshake)',
+                  server=dict(kind='grammar', K=2 if q else 3, alphabet=['text', 'ping', 'close', 'frag']), cut_anywhere=True, end='sym',
+                  ends=['eof', 'error']),
+    ]
+    return run_property('C07', tier, specs, 'model_checking', 'well-formed finite event sequence', ENV_ASSUMPTIONS + [
+        'termination is a bounded-step obligation: exceeding the selector-wait budget after the transport ended is a violation',
+        'deeper histories than the stated bounds are outside the claim ("longer ones randomly" is sampling and is not done)'],
+        LIFE_FUNCS)
+
+
+def c09(tier):
+    q = tier == 'quick'
+    tags = ['C09']
+    allops = ['getaddrinfo', 'socket', 'connect', 'sendall', 'recv', 'wait', 'shutdown', 'close']
+    specs = [
+        life_spec('single-fault', tags,
+                  'server sends Text, Ping, fragmented Binary, (Close); one symbolic fault (socket error / arbitrary exception) at any socket call; '
+                  'application may send/close once',
+                  server=dict(kind='fixed', hex='810161' + '890170' + '020162' + '800163' + ('' if q else '8800')),
+                  fault=dict(ops=allops, kinds=['oserror', 'exception'], max=1),
+                  app=dict(actions=['send_text', 'close'], max_actions=1)),
+        life_spec('cut-at-every-offset', tags,
+                  'EOF or socket error after every byte offset of handshake+frames (offset is a solver variable)',
+                  server=dict(kind='fixed', hex='810161' + '8902' + '7071' + '02026263' + '80026465' + '817e0003616263'),
+                  cut_anywhere=True, end='sym', ends=['eof', 'error', 'exception']),
+        life_spec('all-addresses', tags,
+                  '3 resolved addresses, up to 3 faults among socket()/connect(): every address must be tried before ConnectFail',
+                  server=dict(kind='fixed', hex='810161'), n_addrs=3,
+                  fault=dict(ops=['socket', 'connect'], kinds=['oserror'], max=3)),
+        life_spec('close-handshake-faults', tags,
+                  'server-initiated and client-initiated close with one fault at any socket call',
+                  server=dict(kind='grammar', K=2, alphabet=['text', 'close']),
+                  fault=dict(ops=['sendall', 'recv', 'wait', 'shutdown', 'close'], kinds=['oserror', 'exception'], max=1, skip={'sendall': 1}),
+                  app=dict(actions=['close', 'send_ping'], max_actions=1)),
+    ]
+    if not q:
+        specs.append(life_spec('double-fault', tags, 'all ordered pairs of faults',
+                               server=dict(kind='fixed', hex='810161' + '890170' + '8800'),
+                               fault=dict(ops=allops, kinds=['oserror', 'exception'], max=2),
+                               app=dict(actions=['send_text', 'close'], max_actions=1)))
+    return run_property('C09', tier, specs, 'model_checking', 'transport failures become events', ENV_ASSUMPTIONS + [
+        'a socket whose close()/shutdown() call was itself made to fail is not required to be closed',
+        'faults inside ssl handshakes and proxy sockets are outside (C19 covers the proxy)'], LIFE_FUNCS)
+
+
+def c13(tier):
+    tags = ['C13']
+    specs = []
+    for mech in ['break', 'raise', 'gen.close', 'with']:
+        specs.append(life_spec('abandon-%s' % mech.replace('.', '-'), tags,
+                               'consumer shape "%s"; server: <=3 frames from {Text, Ping, fragmented Binary, Close}; poll=0 so housekeeping Polls '
+                               'are yielded from the top of the loop; the application abandons at a solver-chosen event (optionally after '
+                               'a close()/send)' % mech,
+                               server=dict(kind='grammar', K=2 if tier == 'quick' else 3, alphabet=['text', 'ping', 'frag', 'close']),
+                               connect=dict(poll=0.0), abandon_mechanism=mech, record_selector=True,
+                               app=dict(actions=['abandon', 'close'], max_actions=2)))
+    return run_property('C13', tier, specs, 'model_checking', 'abandoning the loop releases the socket', ENV_ASSUMPTIONS + [
+        'CPython reference counting finalises a dropped generator immediately (break/raise rely on it); other interpreters are outside'],
+        LIFE_FUNCS)
+
+
+PROPS = {'C07': c07, 'C08': c08, 'C09': c09, 'C13': c13, 'C03': c03, 'C02': c02, 'C05': c05, 'C01': c01, 'C04': c04, 'C14': c14}
